@@ -712,7 +712,7 @@ def _shift_cols(node, off):
     return node
 
 
-def sink_common_tail(known):
+def sink_common_tail(known, keep=frozenset()):
     """pass factory.  The inverse of "hoist the common tail out of the branches":
 
         if a: S1; x = e1     elif b: S2; x = e2     else: raise / S3; x = e3
@@ -770,6 +770,12 @@ def sink_common_tail(known):
                         names = common & used
                         if not names:
                             continue
+                        # the pinned version may use the very same idiom under other names (a consistent renaming): then
+                        # there is nothing to undo
+                        binders = [st for b in falls for st in b if isinstance(st, ast.Assign) and
+                                   any(isinstance(x, ast.Name) and x.id in names and isinstance(x.ctx, ast.Store) for x in ast.walk(st))]
+                        if binders and all(shape_key(st) in keep for st in binders):
+                            continue
                         # every other read of these names must be served by a chain of its own (the same idiom elsewhere in the
                         # function): a read that could see the values bound here from outside the tail forbids the renaming
                         tail_ids = {id(y) for t in tail for y in ast.walk(t)} | {id(y) for b in branches for st in b for y in ast.walk(st)}
@@ -798,6 +804,14 @@ def sink_common_tail(known):
                             b[:] = [_Rename(m).visit(st) for st in b]
                             b.extend(_shift_cols(_Rename(m).visit(copy.deepcopy(t)), 1000 * counter[0]) for t in tail)
                         del blk[k + 1:]
+                        # `x = E ; return x` at the end of a branch is `return E`
+                        for b in falls:
+                            if len(b) >= 2 and isinstance(b[-1], ast.Return) and isinstance(b[-1].value, ast.Name) and \
+                                    isinstance(b[-2], ast.Assign) and len(b[-2].targets) == 1 and \
+                                    isinstance(b[-2].targets[0], ast.Name) and b[-2].targets[0].id == b[-1].value.id and \
+                                    sum(1 for x in ast.walk(fn) if isinstance(x, ast.Name) and x.id == b[-1].value.id) == 2:
+                                b[-1].value = b[-2].value
+                                del b[-2]
                         changed = True
                         break
                     if changed:
@@ -882,6 +896,70 @@ def split_redefinitions(known):
         ast.fix_missing_locations(fn)
         return fn
     return run
+
+
+def offset_ids_to_counter(fnode):
+    """for K, X in enumerate(S): c = c0 + K ; BODY(c)        [afterwards: c0 + len(S)]
+         ->   c = c0 ; for K, X in enumerate(S): BODY(c) ; c += 1        [afterwards: c]
+    (ids taken as first-free + position become the running counter the id rules know; the loop has no break / continue,
+    c is bound nowhere else, c0 is not rebound)"""
+    fn = copy.deepcopy(fnode)
+    stores = _store_counts(fn)
+    for blk in [getattr(n, f) for n in ast.walk(fn) for f in ('body', 'orelse', 'finalbody')
+                if isinstance(getattr(n, f, None), list) and getattr(n, f) and isinstance(getattr(n, f)[0], ast.stmt)]:
+        for li, lp in enumerate(list(blk)):
+            if not (isinstance(lp, ast.For) and isinstance(lp.iter, ast.Call) and norm(lp.iter.func) == 'enumerate' and
+                    len(lp.iter.args) == 1 and isinstance(lp.target, ast.Tuple) and isinstance(lp.target.elts[0], ast.Name)):
+                continue
+            if any(isinstance(x, (ast.Break, ast.Continue)) for x in ast.walk(lp)):
+                continue
+            K, S = lp.target.elts[0].id, lp.iter.args[0]
+            cands = []
+            for st in lp.body:
+                if isinstance(st, ast.Assign) and len(st.targets) == 1 and isinstance(st.targets[0], ast.Name) and \
+                        isinstance(st.value, ast.BinOp) and isinstance(st.value.op, ast.Add) and \
+                        isinstance(st.value.left, ast.Name) and isinstance(st.value.right, ast.Name) and \
+                        K in (st.value.left.id, st.value.right.id):
+                    c = st.targets[0].id
+                    c0 = st.value.left.id if st.value.right.id == K else st.value.right.id
+                    if stores.get(c) == 1 and stores.get(c0) == 1 and c0 != K:
+                        cands.append((st, c, c0))
+            if not cands:
+                continue
+            pos = blk.index(lp)
+            for st, c, c0 in cands:
+                # c must not be read before its definition in the body
+                k = lp.body.index(st)
+                if any(isinstance(x, ast.Name) and x.id == c for b in lp.body[:k] for x in ast.walk(b)):
+                    continue
+                lp.body.remove(st)
+                lp.body.append(ast.copy_location(ast.AugAssign(target=ast.Name(id=c, ctx=ast.Store()), op=ast.Add(),
+                                                               value=ast.Constant(value=1)), st))
+                blk.insert(pos, ast.copy_location(ast.Assign(targets=[ast.Name(id=c, ctx=ast.Store())],
+                                                             value=ast.Name(id=c0, ctx=ast.Load())), lp))
+                pos += 1
+                want = {f'{c0} + len({norm(S)})', f'len({norm(S)}) + {c0}'}
+
+                class R(ast.NodeTransformer):
+                    def visit_BinOp(self, node):
+                        self.generic_visit(node)
+                        if norm(node) in want:
+                            return ast.copy_location(ast.Name(id=c, ctx=ast.Load()), node)
+                        return node
+                for j in range(blk.index(lp) + 1, len(blk)):
+                    blk[j] = R().visit(blk[j])
+                # c0 now only feeds `c = c0`: its definition becomes the definition of c
+                left = [x for x in ast.walk(fn) if isinstance(x, ast.Name) and x.id == c0 and isinstance(x.ctx, ast.Load)]
+                d0 = [x for x in blk[:blk.index(lp)] if isinstance(x, ast.Assign) and len(x.targets) == 1 and norm(x.targets[0]) == c0]
+                cp = [x for x in blk[:blk.index(lp)] if isinstance(x, ast.Assign) and len(x.targets) == 1 and norm(x.targets[0]) == c
+                      and norm(x.value) == c0]
+                if len(left) == 1 and len(d0) == 1 and len(cp) == 1 and \
+                        not any(isinstance(n_, ast.Name) and n_.id == c for x in blk[blk.index(d0[0]):blk.index(cp[0])] for n_ in ast.walk(x)):
+                    d0[0].targets[0] = ast.copy_location(ast.Name(id=c, ctx=ast.Store()), d0[0].targets[0])
+                    blk.remove(cp[0])
+                    pos -= 1
+    ast.fix_missing_locations(fn)
+    return fn
 
 
 def block_alloc_to_counter(fnode):
@@ -1015,7 +1093,7 @@ def normalise_function(fnode, known_locals, known_spellings=()):
     fn = negative_indices(fnode)
     if any(isinstance(x, ast.Name) and isinstance(x.ctx, ast.Store) and x.id not in known_locals for x in ast.walk(fn)):
         before = ast.dump(fn)
-        fn = sink_common_tail(known_locals)(fn)
+        fn = sink_common_tail(known_locals, keep)(fn)
         if ast.dump(fn) != before:
             fn = elif_to_ifs(fn)
     fn = reduce_to_loop(fn)
@@ -1029,6 +1107,9 @@ def normalise_function(fnode, known_locals, known_spellings=()):
     if any(isinstance(x, ast.Name) and isinstance(x.ctx, ast.Store) and x.id not in known_locals for x in ast.walk(fn)):
         fn = split_redefinitions(known_locals)(fn)
     fn = inline_unknown_temps(known_locals, keep)(fn)
+    if any(isinstance(x, ast.For) and isinstance(x.iter, ast.Call) and norm(x.iter.func) == 'enumerate' and shape_key(x) not in keep
+           for x in ast.walk(fn)):
+        fn = offset_ids_to_counter(fn)
     if any(isinstance(x, ast.DictComp) for x in ast.walk(fn)):
         before = ast.dump(fn)
         fn = block_alloc_to_counter(fn)
